@@ -158,7 +158,7 @@ def upload_objects(o, tier, prefixes):
         return
     d = os.path.join(core.WORK, "runs", "uploadobj_%d" % os.getpid())
     os.makedirs(d, exist_ok=True)
-    depth = 5 if tier == "quick" else 7
+    depth = 4 if tier == "quick" else 5
     env = {"VERIF_IMPL": os.path.join(d, "impl"), "VERIF_MON": os.path.join(d, "mon"), "VERIF_N": depth}
     ok, out = core.go_test_run(b, "^TestVerifUpload$", env)
     impl = core.read_lines(env["VERIF_IMPL"]) if os.path.exists(env["VERIF_IMPL"]) else []
@@ -167,7 +167,7 @@ def upload_objects(o, tier, prefixes):
     model = []
     if impl and Built.driver(o, "sessdriver"):
         with open(os.path.join(d, "ops"), "w") as f:
-            f.write("\n".join(l.split(" -> ")[0].replace("memdir ", "mem ", 1) for l in impl) + "\n")
+            f.write("\n".join(l.split(" -> ")[0].replace("memdir/", "mem/", 1) for l in impl) + "\n")
         okd, err = core.run_driver("sessdriver", os.path.join(d, "ops"), os.path.join(d, "model"))
         model = core.read_lines(os.path.join(d, "model")) if okd else []
     import shutil
@@ -187,7 +187,7 @@ def upload_objects(o, tier, prefixes):
     o.cov["distinct_nontrivial"] += len(set(l.split(" -> ")[-1] for l in impl))
     o.notes.setdefault("profiles", {})["store-upload-objects"] = {
         "scenarios": len(impl), "max_sequence_length": depth, "stores": ["mem", "dir", "memdir"], "monitor_hits": len(mon),
-        "alphabet": ["Wa", "Wb", "Vbad", "Close", "Cancel"], "outcomes": len(set(l.split(" -> ")[-1] for l in impl))}
+        "alphabet": ["Wa", "Wb", "Vbad", "Vgood", "Close", "CloseRaw", "Cancel"], "pins": ["none", "digest of one Wa chunk", "a digest no sequence produces"], "outcomes": len(set(l.split(" -> ")[-1] for l in impl))}
     if not ok and not mon:
         o.violation("upload object harness failed: %s" % out[-1500:], {"kind": "harness", "output": out[-4000:]}, no_input=True)
         return
